@@ -353,7 +353,7 @@ def build_poser(lists, states, names):
         algs = []
         for ai, (letter, st) in enumerate(zip(lst, sts)):
             a = pickle.loads(tpl[(letter, st)])
-            a.name = f"s{si}_{letter}{ai}"
+            a.name = f"{letter}{ai}"  # same names in every setup, as when class names are used
             algs.append(a)
         if algs:
             ss.add_algorithms(*algs)
